@@ -3,7 +3,8 @@ import glob, json, os
 from lib import vlib, deccheck
 
 
-def run_gen(ctx, n, steps=30, shards=8):
+def run_gen(ctx, n, steps=30, shards=None):
+    shards = shards or (8 if ctx.tier == "quick" else 32)
     p, _ = ctx.run_harness(["drive-gen", "-out", ctx.tmp, "-shards", str(shards), "-n", str(n),
                             "-steps", str(steps)], timeout=3000)
     summ = deccheck.summary_of(p)
